@@ -232,7 +232,7 @@ func parseContractFile(path, pkgPath string, pc *PkgContracts) error {
 	return nil
 }
 
-var funcHeadRe = regexp.MustCompile(`^(?:\(\s*(\w+)\s+(\*?)([\w\./\[\]\$,]+)\s*\)\s*)?([\w\./\$]+)\s*$`)
+var funcHeadRe = regexp.MustCompile(`^(?:\(\s*(\w+)\s+(\*?)([\w\./\[\]\$,]+)\s*\)\s*)?([\w\./\$#]+)\s*$`)
 var loopHeadRe = regexp.MustCompile(`^(.*?)\s*#(rf)?(\d+)\s*$`)
 var specHeadRe = regexp.MustCompile(`^(?:\(\s*(\w+)\s+\*?([\w\.]+)(?:\[[\w, ]*\])?\s*\)\s*)?(\w+)\s*\(([^)]*)\)\s*([\w\.\[\]\*]*)\s*=\s*(.*)$`)
 
